@@ -1520,7 +1520,10 @@ class SVG:
 
         # svgs are fond of not declaring xlink
         # based on https://mailman-mail5.webfaction.com/pipermail/lxml/20100323/021184.html
-        if "xlink" in string and "xmlns:xlink" not in string:
+        # (a comment that merely mentions xmlns:xlink does not declare it)
+        if "xlink" in string and "xmlns:xlink" not in re.sub(
+            r"<!--.*?-->", "", string, flags=re.DOTALL
+        ):
             string = string.replace("xlink:href", _XLINK_TEMP)
 
         # encode because fromstring dislikes xml encoding decl if input is str
